@@ -295,7 +295,7 @@ def shard(tier, i, n, seed):
     for idx, T, v in cases(tier):
         if (idx + seed) % n != i:
             continue
-        guarded(R, lambda: check_case(idx, T, v, R, tier), {'T': T, 'v': v}, CM.type_features(T), idx)
+        guarded(R, lambda: check_case(idx, T, v, R, tier), {'T': T, 'v': v}, CM.type_features(T), idx, cpu_limit=180)
         if idx % 997 == seed % 997:
             R.sample({'T': M.show_type(T), 'identifiers': [x.hex() for x in ident_chain(M.der(T, v), max(1, len(M.tag_stack(T))))]
                       if 'real10' not in CM.value_features(T, v) else None})
